@@ -377,7 +377,24 @@ pub fn run_property(prop: &dyn Property, opts: &RunOpts, golden: &[Vec<u16>]) ->
                             let rec = json!({"property": id, "stage": stage, "signature": "hang", "tape": tape, "profile": profile_name()});
                             let _ = std::fs::write(&path, serde_json::to_string_pretty(&rec).unwrap());
                             println!("HANG property={id} stage={stage} replay={} (case exceeded {hang_secs}s)", path.display());
-                            std::process::exit(3);
+                            // confirm in a fresh process with a generous limit; only a confirmed
+                            // repeat counts, and only for properties that promise termination
+                            let me = std::env::current_exe().expect("current_exe");
+                            let st = std::process::Command::new("timeout")
+                                .args(["-k", "5", "180"])
+                                .arg(&me)
+                                .args(["replay", path.to_str().unwrap()])
+                                .stdout(std::process::Stdio::null())
+                                .stderr(std::process::Stdio::null())
+                                .status();
+                            let confirmed = matches!(st.as_ref().map(|s| s.code()), Ok(Some(124)) | Ok(Some(137)));
+                            if confirmed && matches!(id, "C04" | "C10" | "C13") {
+                                println!("--- the case does not terminate within 180 s when replayed alone (typical case: < 1 ms)");
+                                println!("VIOLATION property={id} replay={}", path.display());
+                                std::process::exit(1);
+                            }
+                            println!("INCONCLUSIVE property={id}: a case exceeded the watchdog (confirmed alone: {confirmed})");
+                            std::process::exit(2);
                         }
                     }
                 }
@@ -444,11 +461,16 @@ pub fn run_property(prop: &dyn Property, opts: &RunOpts, golden: &[Vec<u16>]) ->
                             break;
                         }
                         let sig = f.signature.clone();
+                        let slot = &watch.slots[w];
                         let fails = |t: &[u16]| -> bool {
-                            prop.eval(t)
+                            *slot.lock().unwrap() = Some((Instant::now(), t.to_vec()));
+                            let r = prop
+                                .eval(t)
                                 .failure
                                 .map(|x| x.signature == sig)
-                                .unwrap_or(false)
+                                .unwrap_or(false);
+                            *slot.lock().unwrap() = None;
+                            r
                         };
                         let min = match tree {
                             Some(tree) => shrink(tree, tape.clone(), &fails, prop.shrink_budget()),
@@ -457,10 +479,14 @@ pub fn run_property(prop: &dyn Property, opts: &RunOpts, golden: &[Vec<u16>]) ->
                         // structural minimisation of the decoded case
                         let case = prop.decode_struct(&min).map(|sc| {
                             let sfails = |c: &StructCase| -> bool {
-                                prop.eval_struct(c)
+                                *slot.lock().unwrap() = Some((Instant::now(), min.clone()));
+                                let r = prop
+                                    .eval_struct(c)
                                     .failure
                                     .map(|x| x.signature == sig)
-                                    .unwrap_or(false)
+                                    .unwrap_or(false);
+                                *slot.lock().unwrap() = None;
+                                r
                             };
                             if sfails(&sc) {
                                 minimize(sc, &sfails, 5000)
@@ -525,7 +551,10 @@ pub struct EvidenceMeta<'a> {
 }
 
 pub fn write_evidence(meta: &EvidenceMeta, stats: &Stats, wall_s: f64) {
-    let dir = verif_root().join("evidence");
+    // tools that run checks against deliberately broken trees redirect the evidence
+    let dir = std::env::var_os("VERIF_EVIDENCE_DIR")
+        .map(std::path::PathBuf::from)
+        .unwrap_or_else(|| verif_root().join("evidence"));
     let _ = std::fs::create_dir_all(&dir);
     let samples: Vec<Value> = stats.samples.iter().map(|s| json!(s)).collect();
     let ev = json!({
